@@ -331,6 +331,10 @@ def r2(ctx):
     else:
       seen.add('keep')
       adv = (prev, cur) in tw and (cur, cur + '.downq') in tw or ((prev, cur) in w and (cur, cur + '.downq') in w)
+      if not adv:
+        # the same two moves with the successor read through the alias just made:  m = n; n = m.downq
+        ws = [(U(e.node.targets[0]), resolved_text(ev, i_, e.node.value)) for i_, e in enumerate(ev) if e.kind == 'stmt' and isinstance(e.node, ast.Assign) and len(e.node.targets) == 1]
+        adv = (prev, cur) in ws and (cur, cur + '.downq') in ws and [t for t, _ in ws] == [prev, cur]
       ctx.ob('C03.R2', g, 'still-down node stays queued and the scan advances', not lw and not hc and adv, 'keep path writes %s %s' % (w, tw), whyq)
   ctx.ob('C03.R2', g, 'down-queue scan handles removed / reopened / still-down nodes', seen == {'discarded', 'resurrect', 'keep'}, 'cases: %s' % sorted(seen), whyq)
 
